@@ -96,6 +96,15 @@ def run_mc_models(names, workdir, tier):
             continue
         if tier == "thorough" and m.get("quick_only"):
             continue
+        if m.get("apalache"):
+            md = os.path.join(workdir, "mc_" + name)
+            os.makedirs(md, exist_ok=True)
+            logf = os.path.join(workdir, "mc_" + name + ".log")
+            cmd = ["apalache-mc", "check"] + m["apalache"] + ["--out-dir=" + os.path.join(md, "out"), os.path.join(SPEC, m["module"])]
+            f = open(logf, "w")
+            p = subprocess.Popen(cmd, stdout=f, stderr=subprocess.STDOUT, cwd=md)
+            procs.append((name, m, p, f, logf, time.time()))
+            continue
         cfg = os.path.join(SPEC, "mc", m["cfg"])
         mod = os.path.join(SPEC, "mc", m["module"])
         md = os.path.join(workdir, "mc_" + name)
@@ -119,6 +128,14 @@ def run_mc_models(names, workdir, tier):
             raise ToolError("TLC model %s timed out after %ds" % (name, limit))
         f.close()
         text = open(logf, errors="replace").read()
+        if m.get("apalache"):
+            if p.returncode != 0 or "EXITCODE: OK" not in text:
+                results[name] = {"ok": False, "kind": "failed", "log": logf, "tail": "\n".join(text.splitlines()[-30:])}
+            else:
+                results[name] = {"ok": True, "generated": 1, "distinct": 1, "coverage": {}, "missing_actions": [], "replay": [],
+                                 "wall_s": round(time.time() - t0, 1), "log": logf, "apalache": " ".join(m["apalache"])}
+                log("apalache %s: inductive step discharged, %.1fs" % (name, time.time() - t0))
+            continue
         if p.returncode != 0 or "Model checking completed. No error has been found." not in text:
             tail = "\n".join(text.splitlines()[-40:])
             kind = "violated" if ("is violated" in text or "violated" in text) else "failed"
